@@ -257,7 +257,7 @@ def c01_4c(cx):
     cx.returns_only_if(y, False, VariantIn(r"^\$1$", {"No"}, desc="self is No"))
 
 
-@ob("C01.4d", ["C01", "C12", "C20"], "verify_memo true without shallow+provisional validation or an Unchanged deep verification reuses a stale or abandoned-provisional memo", kind="ONLYIF")
+@ob("C01.4d", ["C01", "C12", "C20", "C17"], "verify_memo true without shallow+provisional validation or an Unchanged deep verification reuses a stale or abandoned-provisional memo", kind="ONLYIF")
 def c01_4d(cx):
     """verify_memo returns true only via (shallow.yes() and validate_may_be_provisional(..)) or deep_verify_memo(..).is_unchanged()."""
     b = cx.fn(MH + r"verify_memo$")
